@@ -729,6 +729,7 @@ class SchedulingSolver(BaseModelWithJson):
         current_variable_value = None
         print("Incremental optimizer:\n======================")
         three_last_times = []
+        num_pushed_scopes = 0
 
         if self._objective._bounds is None:
             bound = None
@@ -809,12 +810,18 @@ class SchedulingSolver(BaseModelWithJson):
                     )
                     break
             self._solver.push()
+            num_pushed_scopes += 1
             if kind == "min":
                 self.append_z3_assertion(variable < current_variable_value)
                 print(f"\tChecking better value < {current_variable_value}")
             else:
                 self.append_z3_assertion(variable > current_variable_value)
                 print(f"\tChecking better value > {current_variable_value}")
+
+        # remove the "better than the incumbent" bounds, so that the solver
+        # can be reused
+        if num_pushed_scopes > 0:
+            self._solver.pop(num_pushed_scopes)
 
         print(f"\ttotal number of iterations: {num_iter}")
         if current_variable_value is not None:
